@@ -522,7 +522,7 @@ func TestC19(t *testing.T) {
 	st.SetRule(c19Rule,
 		"excluded by construction (counted): a command of another type, or Type, on a key whose aggregate was emptied by element removal or whose string has expired - the statement does not say whether such a key still has a type",
 		"TTLs are 0, +1h or -1h, so no outcome depends on when the check runs",
-		"user keys are <= 2 bytes and can never collide with the >= 9-byte internal element keys; element values are non-empty so that 'present' and 'absent' replies differ")
+		"user keys are <= 2 bytes and can never collide with the >= 9-byte internal element keys; 6 % of the hash values and list elements are empty: the reply of a read is then the same as for an absent element, the new/existing flags, sizes and pop order are not")
 	defer finishProperty(st)
 	c19AliasProbe(t, st)
 	checkCases(t, st, func(t *rapid.T) { c19Run(t, st) })
@@ -607,6 +607,9 @@ func c19Run(t *rapid.T, st *kvh.Stats) {
 				cmd.V = []byte(fmt.Sprintf("e%d", kvh.U(t, 50, "v")))
 				if kvh.Pct(t, 8, "bine") {
 					cmd.V = kvh.Pick(t, c19BinaryValues, "binelem")
+				} else if kvh.Pct(t, 6, "emptye") {
+					// an empty element reads back like "no value", but the new/existing flags and the sizes still tell it from an absent one
+					cmd.V = []byte{}
 				}
 			case "zadd":
 				cmd.Score = kvh.Pick(t, c19Scores, "score")
